@@ -372,6 +372,18 @@ def coq_run(name, text, timeout=600):
     cmd = ["timeout", str(timeout), "coqc", "-q", "-Q", ".", "NV",
            f"Cases/{name}.v"]
     r = subprocess.run(cmd, cwd=COQ, capture_output=True, text=True)
+    # the compiled artefacts of a case file are not needed again (the source
+    # is kept when the file did not compile, for diagnosis)
+    for suf in (".vo", ".vos", ".vok", ".glob") + (
+            (".v",) if r.returncode == 0 else ()):
+        try:
+            (CASES / f"{name}{suf}").unlink()
+        except OSError:
+            pass
+    try:
+        (CASES / f".{name}.aux").unlink()
+    except OSError:
+        pass
     return r.returncode == 0, r.stdout + r.stderr
 
 
